@@ -342,6 +342,26 @@ def run_verus(u):
     sem = [b for b in blocks if _SEMANTIC.search(b.split('\n', 1)[0])]
     other = [b for b in blocks if b not in sem]
     if sem and not other and not vr.get('encountered-vir-error'):
+        # Any complete Verus run is a proof; a failed run may be solver instability (the queries of one
+        # file share a Z3 context).  Before reporting, retry with every function in a fresh prover and
+        # with another seed: the obligation is a violation only if no configuration proves it.
+        for n, extra in enumerate((['-V', 'spinoff-all'],
+                                   ['-V', 'spinoff-all', '--smt-option', 'smt.random_seed=7']), 1):
+            try:
+                p2 = subprocess.run(cmd + extra, cwd=d, stdout=subprocess.PIPE, stderr=subprocess.PIPE,
+                                    text=True, timeout=900, env=env)
+                d2 = json.loads(p2.stdout[p2.stdout.index('{'):])
+            except Exception:
+                continue
+            v2 = d2.get('verification-results', {})
+            if (v2.get('success') and v2.get('errors', 0) == 0 and not v2.get('encountered-error')
+                    and v2.get('verified', 0) >= u.min_verified):
+                r.verdict = PASS
+                r.obligations = r.discharged = v2.get('verified', 0)
+                r.solver_s = round(d2.get('times-ms', {}).get('smt', {}).get('total', 0) / 1000.0, 3)
+                r.extra['retry'] = f'first run failed ({len(sem)} obligation(s)); proved on retry {n}: ' + ' '.join(extra)
+                r.extra['cmd'] = ' '.join(cmd + extra)
+                return r
         r.verdict = VIOL
         for b in sem:
             head = b.split('\n', 1)[0]
